@@ -69,4 +69,3 @@ Proof.
   rewrite Hs, E_sum. field. unfold qn. intros H. unfold Qeq in H. simpl in H. lia.
 Qed.
 End Exp.
-Print Assumptions C04_shell_unbiased.
